@@ -68,6 +68,7 @@ func runMergeFaultCase(c *Case, env *Env) *Result {
 
 	// one execution: fresh loads, a global read counter over all inputs
 	exec := func(fault *ReadFault) (buf []byte, err error, pi *PanicInfo, reads, fired int) {
+		Heartbeat()
 		var segs []segment.Segment
 		var ras []*SimReaderAt
 		counter := 0
@@ -139,7 +140,16 @@ func runMergeFaultCase(c *Case, env *Env) *Result {
 	if R > mc.Sample {
 		stride = R / mc.Sample
 	}
-	for j := 0; j < R; j += stride {
+	// positions: the first reads densely (the stored-field phase comes first and
+	// reads little), then evenly spread
+	var positions []int
+	for j := 0; j < R && j < 12; j++ {
+		positions = append(positions, j)
+	}
+	for j := 12; j < R; j += stride {
+		positions = append(positions, j)
+	}
+	for _, j := range positions {
 		for _, count := range []int{1, 0} {
 			kind := (j + count) % NumReadFaultKinds
 			buf, err, pi, _, fired := exec(&ReadFault{From: j, Count: count, Kind: kind})
